@@ -3,7 +3,7 @@ import ast
 
 from ..model import walk_own, dotted
 from .. import q
-from .poolfacts import facts, CLOCKS
+from .poolfacts import facts, CLOCKS, ReaperAnchors
 from .entryiface import r04_1, r04_2, r04_3, flow
 
 SCANNER_MEMBERS = None   # all members
@@ -35,6 +35,7 @@ def r04_4(ctx):
                 fi.callee(v.elts[0]) in CLOCKS and ast.unparse(v.elts[1]) == P[3]
             ctx.ob('R04.4', 'marker-is-(clock, exitcode)', good, fi, n, 'marker = %s' % ast.unparse(v))
     je = m.func('pool:Pool._join_exited_workers')
+    RA = ReaperAnchors(ctx)
     cfg = je.cfg
     callers = []
     for qn, fi in sorted(m.funcs.items()):
@@ -65,8 +66,8 @@ def r04_4(ctx):
             conds = ' and '.join(ast.unparse(x) for x in gen.ifs)
             pv = ast.unparse(gen.target)
             good = over == jobx + '.worker_pids()' and ast.unparse(g.elt) == pv and \
-                conds.replace(' ', '') in ('%sincleanedor%snotinall_pids' % (pv, pv),
-                                           '%snotinall_pidsor%sincleaned' % (pv, pv))
+                conds.replace(' ', '') in ('%sin%sor%snotin%s' % (pv, RA.cleaned, pv, RA.all_pids),
+                                           '%snotin%sor%sin%s' % (pv, RA.all_pids, pv, RA.cleaned))
             detail = 'next(%s for %s in %s if %s)' % (ast.unparse(g.elt), pv, over, conds)
             dflt = defs[0].args[1] if len(defs[0].args) > 1 else None
             good = good and isinstance(dflt, ast.Constant) and dflt.value is None
@@ -92,18 +93,15 @@ def r04_4(ctx):
                '(whatever the exit status)' if ok else
                'some exit statuses leave the unfinished job of a dead worker unresolved', path=w)
     # cleaned only receives exited workers
-    adds = [(n, t) for (n, t, v) in q.assigns(je, lambda t: t.startswith('cleaned['))]
-    q.need(adds, '_join_exited_workers does not fill `cleaned`')
+    adds = [(n, t) for (n, t, v) in q.assigns(je, lambda t: t.startswith(RA.cleaned + '['))]
+    q.need(adds, '_join_exited_workers does not fill its dict of reaped workers')
     for (n, t) in adds:
         g = q.guards_norm(je, n)
-        worker = ast.unparse(t.slice).split('.')[0]
-        names = {}
-        for (dn, tt, v) in q.assigns(je, ('exitcode', 'popen')):
-            names.setdefault(ast.unparse(tt), set()).add(ast.unparse(v) if v is not None else '')
-        okdefs = worker + '.exitcode' in names.get('exitcode', ())
+        worker = RA.worker
+        okdefs = True      # RA.exitcode is by construction assigned from <worker>.exitcode
         # reachable only when popen is None or exitcode is not None
         exited = q.outcome_edges(je, worker + '._popen is None', True) | \
-            q.outcome_edges(je, ('exitcode is None', worker + '.exitcode is None'), False)
+            q.outcome_edges(je, (RA.exitcode + ' is None', worker + '.exitcode is None'), False)
         r = cfg.reach([cfg.entry.id], block_edges=exited, include_src=True)
         ctx.ob('R04.4', 'reaper:cleaned-holds-only-exited-workers', okdefs and bool(exited) and n.id not in r, je, n,
                'cleaned[...] is reachable only through `popen is None` or `exitcode is not None`')
@@ -141,13 +139,14 @@ def r04_5(ctx):
             continue
         t_name, s_name = [ast.unparse(e) for e in unp.targets[0].elts]
         g = q.guards_norm(je, n)
-        want = {('%s._lost_worker_timeout < (now - %s)' % (jobx, t_name), True),
-                ('(now - %s) < %s._lost_worker_timeout' % (t_name, jobx), False)}
+        NOW = ReaperAnchors(ctx).now
+        want = {('%s._lost_worker_timeout < (%s - %s)' % (jobx, NOW, t_name), True),
+                ('(%s - %s) < %s._lost_worker_timeout' % (NOW, t_name, jobx), False)}
         ok = bool(g & want)
         ctx.ob('R04.5', 'reaper:grace-period-elapsed', ok, je, c,
                'guard now - %s > / >= %s._lost_worker_timeout in force' % (t_name, jobx) if ok else
                'guards in force: %s' % sorted(t for t, p in g))
-        nowdefs = [v for (dn, t, v) in q.assigns(je, 'now') if v is not None]
+        nowdefs = [v for (dn, t, v) in q.assigns(je, ReaperAnchors(ctx).now) if v is not None]
         ok = bool(nowdefs) and all(
             any(isinstance(x, ast.Call) and je.callee(x) in CLOCKS for x in ast.walk(v)) or
             (isinstance(v, ast.Constant) and v.value is None) for v in nowdefs)
@@ -192,11 +191,12 @@ def r04_7(ctx):
     q.need(errs, '_join_exited_workers logs no error for abnormal exits')
     for (n, c) in errs:
         g = q.guards_norm(je, n)
-        sets = [t for (t, p) in g if not p and t.startswith('exitcode in ')]
+        EC = ReaperAnchors(ctx).exitcode
+        sets = [t for (t, p) in g if not p and t.startswith(EC + ' in ')]
         ok = False
         detail = 'guards: %s' % sorted(t for t, p in g)
         for t in sets:
-            expr = ast.parse(t[len('exitcode in '):], mode='eval').body
+            expr = ast.parse(t[len(EC + ' in '):], mode='eval').body
             if isinstance(expr, (ast.Tuple, ast.Set, ast.List)):
                 vals = {m.const('pool', e.id) if isinstance(e, ast.Name) else getattr(e, 'value', None) for e in expr.elts}
                 ok = vals == {m.const('pool', 'EX_OK'), m.const('pool', 'EX_RECYCLE')}
